@@ -1,6 +1,6 @@
 (* Extraction of the executable models and specs to OCaml (ExtrOcamlBasic only). *)
 From Coq Require Import Extraction ExtrOcamlBasic.
-From Ubx Require Import Fields Base Checksum Frame ParserUbx ParserNmea CfgKeys FieldsSpec UbloxSpec Request ScriptBackend Backends Helpers Render Scan ScanBackend Gpsd.
+From Ubx Require Import Fields Base Checksum Frame ParserUbx ParserNmea CfgKeys FieldsSpec UbloxSpec Request ScriptBackend Backends LineBackend Helpers Render Scan ScanBackend Gpsd.
 Extraction Language OCaml.
 Extraction "model.ml"
   N.add N.mul N.div N.modulo N.of_nat N.to_nat N.eqb N.ltb
@@ -10,7 +10,7 @@ Extraction "model.ml"
   fresh run process nfresh nprocess nrestart count_sentences
   decode encode setf getf fresh_fields unpack_fields pack_fields
   oracle_decode oracle_zero_reserved
-  run_requests new_srv base_registry
+  run_requests run_requests_line new_srv base_registry
   tty_transmit tty_recover gpsd_transmit hexlify
   render_frame render_cfg
   scan scan_backend parse_chunks ginit
